@@ -126,6 +126,25 @@ func (m *TaprootMat) Snapshot() (Mat, error) {
 	}
 	return out, err
 }
+
+// CloneVia copies every party's material through the library's own Clone method (only the Taproot material offers one).
+func (m *TaprootMat) CloneVia() (Mat, error) {
+	out := &TaprootMat{m.Ids, m.Th, map[party.ID]*frost.TaprootConfig{}}
+	for id, c := range m.Cfgs {
+		id, c := id, c
+		if p, fr, txt := vk.Guard(func() { out.Cfgs[id] = c.Clone() }); p {
+			return nil, fmt.Errorf("Clone panicked at %s: %s", fr, txt)
+		}
+		if out.Cfgs[id] == nil {
+			return nil, fmt.Errorf("Clone returned nil for %q", id)
+		}
+	}
+	return out, nil
+}
+
+// Cloner is implemented by material whose library type has a Clone method.
+type Cloner interface{ CloneVia() (Mat, error) }
+
 func (m *TaprootMat) Refresh(r *vk.Rand, opt Opt) (Mat, error) {
 	c, _, err := FrostRefreshTaproot(r, m.Ids, m.Cfgs, opt)
 	if err != nil {
